@@ -143,6 +143,9 @@ type Action struct {
 	// start
 	NewObject bool `json:"new_object,omitempty"`
 
+	// cancelctx: do not wait for the election to have stopped (the action is then only the cancellation)
+	NoWait bool `json:"no_wait,omitempty"`
+
 	// disconnect / reconnect / closed: notifications delivered back to back behind this one
 	Then []string `json:"then,omitempty"`
 
